@@ -42,6 +42,8 @@ type mGlyph struct {
 	hstems, vstems   [][2]int // (pos, width) relative to the side bearing
 	contours         []mContour
 	seac             *[4]int // adx ady bchar achar (asb = sbx)
+	sbxHalf          bool    // composites only: the side bearing (and asb) is sbx + 1/2
+	wxr              rat2    // when wxr.q != 0: the advance width in x is this fraction (also negative), not wx
 	dotsection       bool
 }
 
@@ -171,20 +173,41 @@ func (w *csWriter) flex(c1, c2 mSeg) {
 	w.op(opSetcurrentpoint)
 }
 
+func (g *mGlyph) widthX() rat2 {
+	if g.wxr.q != 0 {
+		return g.wxr
+	}
+	return rat2{g.wx, 1}
+}
+
 func (g *mGlyph) charstring(r *rng, subrs *[][]byte) []byte {
 	w := &csWriter{r: r, subrs: subrs}
 	if g.useSbw {
 		w.num(rat2{g.sbx, 1})
 		w.num(rat2{g.sby, 1})
-		w.num(rat2{g.wx, 1})
+		w.num(g.widthX())
 		w.num(rat2{g.wy, 1})
 		w.op(opSbw)
+	} else if g.seac != nil && g.sbxHalf {
+		w.num(rat2{2*g.sbx + 1, 2})
+		w.num(g.widthX())
+		w.op(opHsbw)
 	} else {
 		w.num(rat2{g.sbx, 1})
-		w.num(rat2{g.wx, 1})
+		w.num(g.widthX())
 		w.op(opHsbw)
 	}
 	w.x, w.y = rat2{g.sbx, 1}, rat2{g.sby, 1}
+	if g.seac != nil && g.sbxHalf && !g.useSbw {
+		// a side bearing that is not a whole number; asb repeats it exactly
+		w.num(rat2{2*g.sbx + 1, 2})
+		w.num(rat2{g.seac[0], 1})
+		w.num(rat2{g.seac[1], 1})
+		w.num(rat2{g.seac[2], 1})
+		w.num(rat2{g.seac[3], 1})
+		w.op(opSeac)
+		return w.buf
+	}
 	if g.seac != nil {
 		w.num(rat2{g.sbx, 1})
 		w.num(rat2{g.seac[0], 1})
@@ -265,7 +288,7 @@ func (g *mGlyph) charstring(r *rng, subrs *[][]byte) []byte {
 }
 
 func (g *mGlyph) expected() *type1.Glyph {
-	res := &type1.Glyph{WidthX: float64(g.wx), WidthY: float64(g.wy)}
+	res := &type1.Glyph{WidthX: g.widthX().f(), WidthY: float64(g.wy)}
 	for _, s := range g.hstems {
 		res.HStem = append(res.HStem, funitI16(g.sby+s[0]), funitI16(g.sby+s[0]+s[1]))
 	}
@@ -288,6 +311,10 @@ func (g *mGlyph) expected() *type1.Glyph {
 
 func randModelGlyph(r *rng) *mGlyph {
 	g := &mGlyph{sbx: r.rangeInt(-50, 120), wx: r.rangeInt(0, 1500)}
+	if r.chance(1, 8) {
+		// fractional and negative advance widths (a foreign font may have them; the writer rounds to the nearest integer)
+		g.wxr = pick(r, []rat2{{-17, 10}, {-3, 2}, {-1, 2}, {-8, 3}, {-1003, 4}, {5, 2}, {7, 2}, {1201, 2}, {-250, 1}})
+	}
 	if r.chance(1, 5) {
 		g.useSbw = true
 		g.sby = r.rangeInt(-30, 30)
@@ -410,10 +437,10 @@ func randModelFont(r *rng) *modelFont {
 	// grave = 193), whatever encoding the font itself has - or none; the composite declares its own width
 	if f.glyphs["e"] != nil && f.glyphs["acute"] != nil && r.chance(1, 2) {
 		bc, ac, gc := 101, 194, 193
-		f.glyphs["eacute"] = &mGlyph{sbx: r.rangeInt(0, 80), wx: r.rangeInt(0, 1500), seac: &[4]int{r.rangeInt(-50, 200), r.rangeInt(-50, 300), bc, ac}}
+		f.glyphs["eacute"] = &mGlyph{sbxHalf: r.chance(1, 2), sbx: r.rangeInt(0, 80), wx: r.rangeInt(0, 1500), seac: &[4]int{r.rangeInt(-50, 200), r.rangeInt(-50, 300), bc, ac}}
 		// several composites on one base (and on one accent) must not influence each other
 		if f.glyphs["grave"] != nil {
-			f.glyphs["egrave"] = &mGlyph{sbx: r.rangeInt(0, 80), wx: r.rangeInt(0, 1500), seac: &[4]int{r.rangeInt(-50, 200), r.rangeInt(-50, 300), bc, gc}}
+			f.glyphs["egrave"] = &mGlyph{sbxHalf: r.chance(1, 2), sbx: r.rangeInt(0, 80), wx: r.rangeInt(0, 1500), seac: &[4]int{r.rangeInt(-50, 200), r.rangeInt(-50, 300), bc, gc}}
 		}
 		if r.chance(1, 2) {
 			f.glyphs["e.alt"] = &mGlyph{sbx: r.rangeInt(0, 80), wx: f.glyphs["e"].wx, seac: &[4]int{r.rangeInt(-50, 200), r.rangeInt(-50, 300), bc, ac}}
